@@ -64,6 +64,9 @@
 #define COAP_TOKEN_EXT_1B_BIAS 13
 #define COAP_TOKEN_EXT_2B_BIAS 269 /* 13 + 256 */
 
+/* Longest option value the 4-bit + 2-byte extension length field can express */
+#define COAP_OPT_VALUE_MAX_LENGTH (269 + 65535)
+
 #ifndef COAP_DEBUG_BUF_SIZE
 #if defined(WITH_CONTIKI) || defined(WITH_LWIP)
 #define COAP_DEBUG_BUF_SIZE 128
